@@ -215,7 +215,8 @@ def gen(rng, tier):
     if spec["final_shutdown"] is not None and rng.random() < 0.5:
         spec["shutdown_racers"] = rng.choice([1, 1, 2])
         spec["shutdown_inner"] = rng.random() < 0.3
-    if layers[-1]["t"] == "cos" and spec["final_shutdown"] is not None and base["kind"] != "sync" and rng.random() < 0.6:
+    if layers[-1]["t"] == "cos" and spec["final_shutdown"] is not None and base["kind"] != "sync" and rng.random() < 0.6 \
+            and "cb_shutdown" not in spec:     # (a shutdown from a callback would wait out the 500 s callables: no quiescence to judge)
         # leave something for the sweep: a submission that is still running / queued at shutdown
         for k in list(subs)[:rng.choice([1, 2])]:
             subs[k]["dur"] = 500.0
@@ -288,6 +289,8 @@ def check(spec, env):
         return []
     if spec.get("mode") == "comb":
         return check_comb(spec, env)
+    if sum(1 for e in sim.log if e[3] == "cb-shutdown") != sum(1 for e in sim.log if e[3] == "cb-shutdown-ret"):
+        return []       # a shutdown issued from a callback is still in progress: the history has not quiesced
     snap = env.objs.get("metrics")
     if snap is None:
         return [{"oracle": "setup", "sig": "metrics-stub-not-loaded", "msg": "prometheus_client stub not loaded"}]
@@ -393,7 +396,9 @@ def check(spec, env):
     for e in log:
         if e[3] == "final" and (not sd_seq or e[0] < sd_seq[0]):
             first_finals[e[4]] = e[5][0]
-    if len(touts) == 1 and all(L["t"] == "cos" for L in spec["layers"][touts[0] + 1:]):
+    # (not judged when a done-callback shuts the stack down: that callback may run on the timeout
+    #  thread, and the shutdown sweep it performs there is not a timeout)
+    if len(touts) == 1 and all(L["t"] == "cos" for L in spec["layers"][touts[0] + 1:]) and spec.get("cb_shutdown") is None:
         i = touts[0]
         cur = bname if bk in ("sync", "pool") else "default"
         for L in spec["layers"][:i + 1]:
